@@ -18,6 +18,7 @@ func genStep(t *rapid.T) Step {
 		s.Off = rapid.SampledFrom([]int{0, 0, 0, 0, 0, 0, 0, 0, -1, 1}).Draw(t, "off")
 	case "reorg-prev", "reorg-cur":
 		s.Late = rapid.SampledFrom([]bool{false, false, true}).Draw(t, "late")
+		s.V = rapid.IntRange(0, 2).Draw(t, "v")
 	case "indices":
 		s.Comm = rapid.SampledFrom([]uint8{15, 7, 14, 11, 13, 3, 5, 6, 9, 10, 12, 1, 2, 4, 8, 0}).Draw(t, "comm")
 		s.Other = uint8(rapid.IntRange(0, 3).Draw(t, "other"))
@@ -28,7 +29,6 @@ func genStep(t *rapid.T) Step {
 func genFetch(t *rapid.T) FetchSpec {
 	f := FetchSpec{
 		Fail: rapid.SampledFrom([]bool{false, false, true}).Draw(t, "fail"),
-		V:    rapid.SampledFrom([]int{0, 0, 1, 2}).Draw(t, "v"),
 	}
 	if f.Fail { // beacon-node outages come in bursts
 		f.N = rapid.SampledFrom([]int{1, 1, 2, 3, 4, 5, 6, 8}).Draw(t, "n")
